@@ -135,6 +135,25 @@ def io_writesds(c, a):
                 sb.free()
         if L.DFSDadddata(P(c), len(shape), i32arr(shape), b.ptr) == FAIL:
             r = FAIL
+    elif api == "DFSDS":
+        # the same dataset written in two hyperslabs along the first dimension (the second one empty for 1 row)
+        L.DFSDclear()
+        if L.DFSDsetNT(nt) == FAIL or L.DFSDsetdims(len(shape), i32arr(shape)) == FAIL:
+            r = FAIL
+        if L.DFSDstartslab(P(c)) == FAIL:
+            r = FAIL
+        else:
+            h = max(1, shape[0] // 2)
+            rec = len(raw) // shape[0]
+            for lo, hi in ((0, h), (h, shape[0])):
+                if hi > lo:
+                    sb = CBuf((hi - lo) * rec, raw[lo * rec:hi * rec])
+                    # (slab starts are 1-based in this interface)
+                    if L.DFSDwriteslab(i32arr([lo + 1] + [1] * (len(shape) - 1)), i32arr([1] * len(shape)), i32arr([hi - lo] + shape[1:]), sb.ptr) == FAIL:
+                        r = FAIL
+                    sb.free()
+            if L.DFSDendslab() == FAIL:
+                r = FAIL
     elif api == "SD":
         sd = L.SDstart(P(c), DFACC_RDWR)
         cshape = list(shape)
